@@ -18,17 +18,37 @@
   their own model-level witnesses below).  `C06_partial` is the property outside the finding
   triggers, for values / lists / objects of any size and nesting depth.  Its hypothesis `Proved_06`
   (`InputRel.related`: the generated module mirrors the schema field by field and every default
-  evaluates) is decidable and is evaluated by the driver on every generated case; that the generator
-  establishes it whenever no trigger fires is covered by that measurement, not by a theorem.
+  evaluates) is decidable and is evaluated by the driver on every generated case.  THAT THE GENERATOR
+  ESTABLISHES IT is a theorem for the decidable class `WF_06` (`proved_06_of_wf`, proof in
+  `Proofs/C06Related.lean`: names not reserved, every field type resolves, enum members do not collide,
+  every default literal is `plainLit` — no object literal, a list literal only at a list type), so
+  `C06_partial_plain` needs no `Proved_06`; for schemas with object-literal defaults (and structured
+  literals on custom scalars) it is covered by the measurement only.  The same for either schema
+  source: `proved_06_src_of_wf`, `C06_partial_any_source_plain`.
   `ReadsBackDefaults` (should-tier) is proved in two halves: `default_not_validated` (an absent field
   reads back exactly the evaluated default expression) and `default_readback` (for every default literal
   WITHOUT object literals — scalars, enums, null, lists and nested lists of those — the emitted
   expression evaluates to a value equal to `coerceLit`, the coerced schema default); defaults with
   object literals are covered by the `readback` correspondence op and the oracle only.
+
+  BOTH SCHEMA SOURCES (section "both schema sources" below; `Model/InputSource.lean`,
+  `Proofs/C06Source.lean`): the generator with `field.ast_node` absent (a schema obtained by
+  introspection) is the SDL generator applied to what it can see of the schema (`classes_src_is_view`);
+  `required_iff_src` / `required_iff_intro` / `required_iff_any_source`; `C06_partial_any_source` is
+  `C06_partial` for the module of either source; `intro_default_lost` (for EVERY field: on the
+  introspection path the class gets `= None` or nothing, whatever the schema default) and
+  `accepts_false_on_introspection` / `intro_default_reads_none` are finding C06-F8 on the model.
+
+  THE MODULE AROUND THE CLASSES (section "imports and class selection"; `Model/InputDeps.lean`,
+  `Proofs/C06Deps.lean`, C09's DFS lemmas reused): `generate_total`, `used_enum_imported`,
+  `dependency_emitted`, `default_names_bound`.
 -/
 import AriadneModel.Proofs.C06Accept
 import AriadneModel.Proofs.C06Defaults
 import AriadneModel.Proofs.C06Readback
+import AriadneModel.Proofs.C06Source
+import AriadneModel.Proofs.C06Deps
+import AriadneModel.Proofs.C06Related
 
 set_option linter.unusedSimpArgs false
 set_option linter.unusedVariables false
@@ -36,8 +56,9 @@ set_option linter.unusedSectionVars false
 
 namespace Ariadne.C06
 open Ariadne
-open Ariadne.InputGen (TypeRef Lit PyExpr InputField TypeDef)
+open Ariadne.InputGen (TypeRef Lit PyExpr InputField TypeDef Mode)
 open Ariadne.InputField Ariadne.CoerceInput Ariadne.PydInput Ariadne.InputRel
+open Ariadne.InputSource Ariadne.InputDeps Ariadne.InputWf
 
 /-! ## the setting -/
 
@@ -119,16 +140,16 @@ def f1Value : J := .obj [("l", .arr [.num 1 0, .null])]
 set_option maxRecDepth 100000 in
 theorem nullable_item_rejected :
     isOk (coerce f1.S (.named "In") f1Value) = true ∧ canonical f1.env f1.kinds f1.S (.named "In") f1Value = true
-    ∧ isOk (construct f1.env "In" f1Value) = false := by decide
+    ∧ isOk (construct f1.env "In" f1Value) = false := by decide +kernel
 
 set_option maxRecDepth 100000 in
 theorem C06_full_false : ¬ C06_full := by
   intro h
-  obtain ⟨hacc, _⟩ := h f1 (by unfold Valid; decide)
+  obtain ⟨hacc, _⟩ := h f1 (by unfold Valid; decide +kernel)
   have hfind : f1.S.find? "In" = some (.input "In" [⟨"l", .nonNull (.list (.named "Int")), none⟩]) := by rfl
   have hco : coerce f1.S (.named "In") f1Value = .ok (.obj [("l", .arr [.num 1 0, .null])]) := by rfl
-  obtain ⟨⟨m, hm⟩, _⟩ := hacc "In" _ hfind f1Value _ (by intro h; cases h) hco (by decide)
-  have : isOk (construct f1.env "In" f1Value) = false := by decide
+  obtain ⟨⟨m, hm⟩, _⟩ := hacc "In" _ hfind f1Value _ (by intro h; cases h) hco (by decide +kernel)
+  have : isOk (construct f1.env "In" f1Value) = false := by decide +kernel
   rw [hm] at this
   cases this
 
@@ -139,7 +160,7 @@ def f2 : Setting := { cfg := cfg0, defs :=
 
 set_option maxRecDepth 100000 in
 theorem enum_in_object_default_raises :
-    validDefs f2.defs = true ∧ failsWith (construct f2.env "In" (.obj [])) (.defaultRaised (.attributeError "In2.B")) = true := by decide
+    validDefs f2.defs = true ∧ failsWith (construct f2.env "In" (.obj [])) (.defaultRaised (.attributeError "In2.B")) = true := by decide +kernel
 
 /-- C06-F3: `e: [E] = [None]` — `E.None` is not Python: the module does not import -/
 def f3 : Setting := { cfg := cfg0, defs :=
@@ -147,7 +168,7 @@ def f3 : Setting := { cfg := cfg0, defs :=
 
 set_option maxRecDepth 100000 in
 theorem keyword_enum_default_breaks_module :
-    validDefs f3.defs = true ∧ f3.env.broken = true ∧ failsWith (construct f3.env "In" (.obj [])) .importError = true := by decide
+    validDefs f3.defs = true ∧ f3.env.broken = true ∧ failsWith (construct f3.env "In" (.obj [])) .importError = true := by decide +kernel
 
 /-- C06-F4: `l: [In2] = [{b: 1}]` — the default reads back as a list of `FieldInfo` objects -/
 def f4 : Setting := { cfg := cfg0, defs :=
@@ -160,7 +181,7 @@ def isFieldInfoList : Except VErr PV → Bool
 
 set_option maxRecDepth 100000 in
 theorem object_in_list_default_is_fieldinfo :
-    validDefs f4.defs = true ∧ isFieldInfoList (construct f4.env "In" (.obj [])) = true := by decide
+    validDefs f4.defs = true ∧ isFieldInfoList (construct f4.env "In" (.obj [])) = true := by decide +kernel
 
 /-- C06-F5: `i: ID = 5` reads back `5`, the coerced schema default is `"5"` -/
 def f5 : Setting := { cfg := cfg0, defs := [.input "In" [⟨"i", .named "ID", some (.int 5), false⟩]] }
@@ -177,7 +198,7 @@ def isNum5 : Option PV → Bool
 set_option maxRecDepth 100000 in
 theorem coercing_default_mismatch :
     validDefs f5.defs = true ∧ coercesTo (coerceLit f5.S (.named "ID") (.int 5)) (.str "5") = true ∧ isNum5 (readsBack f5 "In" "i") = true
-    ∧ pvMatches f5.env (.num 5 0) (.str "5") = false := by decide
+    ∧ pvMatches f5.env (.num 5 0) (.str "5") = false := by decide +kernel
 
 /-- C06-F6: `j: JSON = {a: 1}` — `globals()[""]`: KeyError -/
 def f6 : Setting := { cfg := cfg0, defs :=
@@ -185,7 +206,7 @@ def f6 : Setting := { cfg := cfg0, defs :=
 
 set_option maxRecDepth 100000 in
 theorem object_default_on_scalar_raises :
-    validDefs f6.defs = true ∧ failsWith (construct f6.env "In" (.obj [])) (.defaultRaised (.keyError "")) = true := by decide
+    validDefs f6.defs = true ∧ failsWith (construct f6.env "In" (.obj [])) (.defaultRaised (.keyError "")) = true := by decide +kernel
 
 /-! ## outside the triggers -/
 
@@ -239,14 +260,14 @@ theorem all2_mem {α β : Type} (r : α → β → Bool) : ∀ (as : List α) (b
       · obtain ⟨b, hb, hr⟩ := ih bs h.2 a ha'
         exact ⟨b, List.mem_cons_of_mem _ hb, hr⟩
 
-/-- the model field that belongs to a schema field -/
-theorem field_of (x : Setting) (hp : Proved_06 x) (n : String) (fs : List CField) (hin : x.S.find? n = some (.input n fs))
-    (cf : CField) (hcf : cf ∈ fs) :
-    ∃ c sp, x.env.class? n = some c ∧ namesOK c.fields = true ∧ sp ∈ c.fields ∧ sp.key = cf.name
+/-- the model field that belongs to a schema field (for any schema / module pair that is `related`) -/
+theorem field_of_rel {kinds : String → Kind} {S : CSchema} {env : Env} (hp : related kinds S env = true)
+    (n : String) (fs : List CField) (hin : S.find? n = some (.input n fs)) (cf : CField) (hcf : cf ∈ fs) :
+    ∃ c sp, env.class? n = some c ∧ namesOK c.fields = true ∧ sp ∈ c.fields ∧ sp.key = cf.name
       ∧ (sp.default = none ↔ (cf.default = none ∧ cf.type.isNonNull = true)) := by
   obtain ⟨htr, _⟩ := C06Accept.related_type hp n _ hin
   simp only [typeRel, Bool.and_eq_true, beq_iff_eq] at htr
-  cases hc : x.env.class? n with
+  cases hc : env.class? n with
   | none => simp [hc] at htr
   | some c =>
     simp only [hc, Bool.and_eq_true] at htr
@@ -258,16 +279,41 @@ theorem field_of (x : Setting) (hp : Proved_06 x) (n : String) (fs : List CField
     rw [← Option.isNone_iff_eq_none, hreq]
     simp [Option.isNone_iff_eq_none]
 
+theorem field_of (x : Setting) (hp : Proved_06 x) (n : String) (fs : List CField) (hin : x.S.find? n = some (.input n fs))
+    (cf : CField) (hcf : cf ∈ fs) :
+    ∃ c sp, x.env.class? n = some c ∧ namesOK c.fields = true ∧ sp ∈ c.fields ∧ sp.key = cf.name
+      ∧ (sp.default = none ↔ (cf.default = none ∧ cf.type.isNonNull = true)) :=
+  field_of_rel hp n fs hin cf hcf
+
+theorem lacking_required_refused_rel {kinds : String → Kind} {S : CSchema} {env : Env} (hp : related kinds S env = true)
+    (n : String) (fs : List CField) (hin : S.find? n = some (.input n fs)) (cf : CField) (hcf : cf ∈ fs)
+    (hnn : cf.type.isNonNull = true) (hnd : cf.default = none) :
+    ∃ sp : FieldSpec, sp.key = cf.name ∧ ∀ kvs, cf.name ∉ keys kvs → sp.py ∉ keys kvs → ∃ e, construct env n (.obj kvs) = .error e := by
+  obtain ⟨c, sp, hc, hn, hsp, hkey, hreq⟩ := field_of_rel hp n fs hin cf hcf
+  refine ⟨sp, hkey, ?_⟩
+  intro kvs h1 h2
+  exact C06Defaults.missing_required_refused env n c hc hn sp hsp (hreq.mpr ⟨hnd, hnn⟩) kvs (by rw [hkey]; exact h1) h2
+
 /-- must: a value that mentions a required field neither by its GraphQL name nor by the Python name of
     its model field is refused -/
 theorem lacking_required_refused (x : Setting) (hp : Proved_06 x) (n : String) (fs : List CField)
     (hin : x.S.find? n = some (.input n fs)) (cf : CField) (hcf : cf ∈ fs)
     (hnn : cf.type.isNonNull = true) (hnd : cf.default = none) :
-    ∃ sp : FieldSpec, sp.key = cf.name ∧ ∀ kvs, cf.name ∉ keys kvs → sp.py ∉ keys kvs → ∃ e, construct x.env n (.obj kvs) = .error e := by
-  obtain ⟨c, sp, hc, hn, hsp, hkey, hreq⟩ := field_of x hp n fs hin cf hcf
+    ∃ sp : FieldSpec, sp.key = cf.name ∧ ∀ kvs, cf.name ∉ keys kvs → sp.py ∉ keys kvs → ∃ e, construct x.env n (.obj kvs) = .error e :=
+  lacking_required_refused_rel hp n fs hin cf hcf hnn hnd
+
+theorem server_sees_default_rel {kinds : String → Kind} {S : CSchema} {env : Env} (hp : related kinds S env = true)
+    (n : String) (fs : List CField)
+    (hin : S.find? n = some (.input n fs)) (hdist : strDistinct (fs.map (·.name)) = true)
+    (cf : CField) (hcf : cf ∈ fs) (d : J) (hdef : cf.default = some (.ok d)) :
+    ∃ sp : FieldSpec, sp.key = cf.name ∧ ∀ kvs m, cf.name ∉ keys kvs → sp.py ∉ keys kvs → construct env n (.obj kvs) = .ok m →
+      ∀ c, coerce S (.named n) (dump env m) = .ok c → ∃ out, c = .obj out ∧ J.lookup cf.name out = some d := by
+  obtain ⟨cl, sp, hc, hn, hsp, hkey, _⟩ := field_of_rel hp n fs hin cf hcf
   refine ⟨sp, hkey, ?_⟩
-  intro kvs h1 h2
-  exact C06Defaults.missing_required_refused x.env n c hc hn sp hsp (hreq.mpr ⟨hnd, hnn⟩) kvs (by rw [hkey]; exact h1) h2
+  intro kvs m h1 h2 hm c hco
+  obtain ⟨out, hd, hnot⟩ := C06Defaults.unset_not_dumped env n cl hc hn sp hsp kvs (by rw [hkey]; exact h1) h2 m hm
+  rw [hd] at hco
+  exact C06Defaults.server_applies_default S n fs hin hdist cf hcf d hdef out (by rw [← hkey]; exact hnot) c hco
 
 /-- should (`server_sees_default`): an instance built without a defaulted field does not dump that
     field, and the server's coercion of the dump carries the schema default for it -/
@@ -275,13 +321,8 @@ theorem server_sees_default (x : Setting) (hv : Valid x) (hp : Proved_06 x) (n :
     (hin : x.S.find? n = some (.input n fs)) (hdist : strDistinct (fs.map (·.name)) = true)
     (cf : CField) (hcf : cf ∈ fs) (d : J) (hdef : cf.default = some (.ok d)) :
     ∃ sp : FieldSpec, sp.key = cf.name ∧ ∀ kvs m, cf.name ∉ keys kvs → sp.py ∉ keys kvs → construct x.env n (.obj kvs) = .ok m →
-      ∀ c, coerce x.S (.named n) (dump x.env m) = .ok c → ∃ out, c = .obj out ∧ J.lookup cf.name out = some d := by
-  obtain ⟨cl, sp, hc, hn, hsp, hkey, _⟩ := field_of x hp n fs hin cf hcf
-  refine ⟨sp, hkey, ?_⟩
-  intro kvs m h1 h2 hm c hco
-  obtain ⟨out, hd, hnot⟩ := C06Defaults.unset_not_dumped x.env n cl hc hn sp hsp kvs (by rw [hkey]; exact h1) h2 m hm
-  rw [hd] at hco
-  exact C06Defaults.server_applies_default x.S n fs hin hdist cf hcf d hdef out (by rw [← hkey]; exact hnot) c hco
+      ∀ c, coerce x.S (.named n) (dump x.env m) = .ok c → ∃ out, c = .obj out ∧ J.lookup cf.name out = some d :=
+  server_sees_default_rel hp n fs hin hdist cf hcf d hdef
 
 /-- should (half of `default_readback`): pydantic does not validate defaults — an absent field reads
     back exactly the evaluated default expression -/
@@ -384,7 +425,7 @@ theorem default_readback (s : CSchema) (env : Env) (ft : String)
 example : C06Readback.plainLit okSetting0.S "E" (.list (.list (.nonNull (.named "E"))))
       (.list [.list [.enum "A"], .list [], .null]) = true
     ∧ isOk (coerceLit okSetting0.S (.list (.list (.nonNull (.named "E")))) (.list [.list [.enum "A"], .list [], .null])) = true := by
-  decide
+  decide +kernel
 
 /-- non-vacuity of the enum hypothesis of `default_readback`: the module generated for `enum E { A class }` -/
 example : C06Readback.EnumOk okSetting0.env "E" ["A", "class"] :=
@@ -403,6 +444,49 @@ theorem C06_partial (x : Setting) (hv : Valid x) (hs : Supported_06 x) (hp : Pro
   ⟨input_accepts_coerced x hp,
    fun n fs hin cf hcf hnn hnd => lacking_required_refused x hp n fs hin cf hcf hnn hnd,
    fun n fs hin hdist cf hcf d hdef => server_sees_default x hv hp n fs hin hdist cf hcf d hdef⟩
+
+/-! ## `Proved_06` is a theorem on `WF_06` -/
+
+/-- the decidable class for which the generator is PROVED to establish `Proved_06` (`Model/InputWf.lean`) -/
+def WF_06 (x : Setting) : Prop := wf06 x.cfg x.defs = true
+
+/-- the generator establishes `InputRel.related` — for every valid, supported schema in `WF_06`, of any size -/
+theorem proved_06_of_wf (x : Setting) (hv : Valid x) (hs : Supported_06 x) (hw : WF_06 x) : Proved_06 x :=
+  C06Related.related_of_wf x.cfg x.defs x.acc x.lax hv hw hs
+
+/-- the property outside the finding triggers, WITHOUT the measured hypothesis: for schemas whose
+    defaults are plain literals (scalars, enums by name, null, lists and nested lists of those) -/
+theorem C06_partial_plain (x : Setting) (hv : Valid x) (hs : Supported_06 x) (hw : WF_06 x) :
+    Accepts x
+    ∧ (∀ n fs, x.S.find? n = some (.input n fs) → ∀ cf ∈ fs, cf.type.isNonNull = true → cf.default = none →
+        ∃ sp : FieldSpec, sp.key = cf.name ∧ ∀ kvs, cf.name ∉ keys kvs → sp.py ∉ keys kvs → ∃ e, construct x.env n (.obj kvs) = .error e)
+    ∧ (∀ n fs, x.S.find? n = some (.input n fs) → strDistinct (fs.map (·.name)) = true → ∀ cf ∈ fs, ∀ d,
+        cf.default = some (.ok d) →
+        ∃ sp : FieldSpec, sp.key = cf.name ∧ ∀ kvs m, cf.name ∉ keys kvs → sp.py ∉ keys kvs → construct x.env n (.obj kvs) = .ok m →
+          ∀ c, coerce x.S (.named n) (dump x.env m) = .ok c → ∃ out, c = .obj out ∧ J.lookup cf.name out = some d) :=
+  C06_partial x hv hs (proved_06_of_wf x hv hs hw)
+
+/-- non-vacuity of `WF_06`: aliases, keyword / reserved / camelCase names, a configured scalar, enum
+    (incl. a keyword-named value that is not used in a default), every plain default kind, a recursive input -/
+def okPlain : Setting := { cfg := ⟨true, [⟨"Code", "str", none⟩]⟩, defs :=
+  [.enum "E" ["A", "class"],
+   .scalar "JSON", .scalar "Code", .composite "Query",
+   .input "In2" [⟨"e", .named "E", some (.enum "A"), false⟩, ⟨"b", .nonNull (.named "Int"), some (.int 3), false⟩,
+                 ⟨"modelConfig", .named "Code", some (.str "c-1"), false⟩],
+   .input "In" [⟨"camelCase", .list (.named "Int"), some (.list [.int 1, .null]), false⟩,
+                ⟨"class", .nonNull (.list (.nonNull (.named "ID"))), none, false⟩,
+                ⟨"es", .list (.list (.nonNull (.named "E"))), some (.list [.list [.enum "A"], .list [], .null]), false⟩,
+                ⟨"f", .named "Float", some (.float "1.5e2"), false⟩,
+                ⟨"o", .named "In2", some .null, false⟩,
+                ⟨"self", .list (.list (.named "In")), none, false⟩,
+                ⟨"j", .named "JSON", some (.bool true), false⟩]] }
+
+set_option maxRecDepth 1000000 in
+example : Valid okPlain ∧ Supported_06 okPlain ∧ WF_06 okPlain := by
+  refine ⟨?_, ?_, ?_⟩
+  · unfold Valid; decide +kernel
+  · unfold Supported_06; decide +kernel
+  · unfold WF_06; decide +kernel
 
 /-! ## non-vacuity: a setting with every wrapper shape that is right, aliases, enum / list / object
     defaults, a recursive input — it is valid, supported, and `related` holds; a nested value with a
@@ -426,14 +510,258 @@ def okValue : J :=
 set_option maxRecDepth 1000000 in
 example : Valid okSetting ∧ Supported_06 okSetting ∧ Proved_06 okSetting := by
   refine ⟨?_, ?_, ?_⟩
-  · unfold Valid; decide
-  · unfold Supported_06; decide
-  · unfold Proved_06; decide
+  · unfold Valid; decide +kernel
+  · unfold Supported_06; decide +kernel
+  · unfold Proved_06; decide +kernel
 
 set_option maxRecDepth 1000000 in
 example : isOk (coerce okSetting.S (.named "In") okValue) = true
     ∧ canonical okSetting.env okSetting.kinds okSetting.S (.named "In") okValue = true
     ∧ isOk (construct okSetting.env "In" okValue) = true
-    ∧ isOk (construct okSetting.env "In" (rekey okSetting.env okSetting.S true (.named "In") okValue)) = true := by decide
+    ∧ isOk (construct okSetting.env "In" (rekey okSetting.env okSetting.S true (.named "In") okValue)) = true := by decide +kernel
+
+/-! ## both schema sources
+
+  `field.ast_node` is present for a schema built from SDL and absent for one obtained by introspection
+  (`build_client_schema`): `Mode`.  What coercion sees is `Ssrc` (defaults restored from the
+  introspection result; an input field the endpoint did not return is not there), what is imported is
+  `envSrc` (the module the generator emits from that schema object). -/
+
+def Setting.envSrc (x : Setting) (m : Mode) : Env := mkEnvSrc m x.cfg x.defs x.acc x.lax
+def Setting.Ssrc (x : Setting) (m : Mode) : CSchema := mkSchema (visibleDefs m x.defs)
+
+theorem envSrc_sdl (x : Setting) : x.envSrc .sdl = x.env := C06Source.mkEnvSrc_sdl _ _ _ _
+theorem Ssrc_sdl (x : Setting) : x.Ssrc .sdl = x.S := by unfold Setting.Ssrc Setting.S; rw [C06Source.visibleDefs_sdl]
+
+/-- the classes generated from a schema of either source are the classes the SDL generator emits for
+    what the generator can see of that schema (default literals erased, unreturned fields dropped) -/
+theorem classes_src_is_view (m : Mode) (cfg : Cfg) (defs : List TypeDef) :
+    classesSrc m cfg defs = classes cfg (viewOf m defs) ∧ classesSrc .sdl cfg defs = classes cfg defs :=
+  ⟨C06Source.classesSrc_eq_view m cfg defs, C06Source.classesSrc_sdl cfg defs⟩
+
+/-- requiredness for a schema of source `m`: required iff non-null and the generator can see no
+    default; name and alias as for SDL -/
+theorem required_iff_src (m : Mode) (cfg : Cfg) (kinds : String → Kind) (f : InputField) (d : FieldDecl)
+    (h : genFieldSrc m cfg kinds f = some d) :
+    (d.required = true ↔ (f.type.isNonNull = true ∧ (viewField m f).default = none))
+    ∧ d.py = pyName cfg.snake f.name
+    ∧ d.value.alias = (if pyName cfg.snake f.name != f.name then some f.name else none) := by
+  obtain ⟨a, ft, _, _, hpy, _, hal⟩ := C06Source.genFieldSrc_default m cfg kinds f d h
+  exact ⟨C06Source.genFieldSrc_required m cfg kinds f d h, hpy, hal⟩
+
+/-- introspection: a field is required iff its type is non-null — the schema default plays no role -/
+theorem required_iff_intro (b : Bool) (cfg : Cfg) (kinds : String → Kind) (f : InputField) (d : FieldDecl)
+    (h : genFieldSrc (.intro b) cfg kinds f = some d) : d.required = true ↔ f.type.isNonNull = true := by
+  rw [(required_iff_src (.intro b) cfg kinds f d h).1]
+  simp [viewField]
+
+/-- both sources in one statement: required iff non-null and (SDL →) no default -/
+theorem required_iff_any_source (m : Mode) (cfg : Cfg) (kinds : String → Kind) (f : InputField) (d : FieldDecl)
+    (h : genFieldSrc m cfg kinds f = some d) :
+    d.required = true ↔ (f.type.isNonNull = true ∧ (m = .sdl → f.default = none)) := by
+  rw [(required_iff_src m cfg kinds f d h).1, C06Source.viewField_default_none_iff]
+
+/-- C06-F8, for EVERY field and every default literal: on the introspection path the class gets
+    nothing (non-null type: the field is required) or `= None` (nullable type) — the schema default
+    never reaches it -/
+theorem intro_default_lost (b : Bool) (cfg : Cfg) (kinds : String → Kind) (f : InputField) (d : FieldDecl)
+    (h : genFieldSrc (.intro b) cfg kinds f = some d) :
+    d.value.default = (if f.type.isNonNull then none else some .none) := by
+  obtain ⟨a, ft, _, _, _, hdef, _⟩ := C06Source.genFieldSrc_default (.intro b) cfg kinds f d h
+  rw [hdef, C06Source.fieldDefault_intro]
+
+def AcceptsSrc (m : Mode) (x : Setting) : Prop :=
+  ∀ n fs, (x.Ssrc m).find? n = some (.input n fs) → ∀ v c, v ≠ .null →
+    coerce (x.Ssrc m) (.named n) v = .ok c → canonical (x.envSrc m) x.kinds (x.Ssrc m) (.named n) v = true →
+      (∃ r, construct (x.envSrc m) n v = .ok r) ∧ (∃ r, construct (x.envSrc m) n (rekey (x.envSrc m) (x.Ssrc m) true (.named n) v) = .ok r)
+
+/-- C06-F8 witness: `input In { a: Int! = 5, b: Int = 7 }` -/
+def f8 : Setting := { cfg := cfg0, defs :=
+  [.input "In" [⟨"a", .nonNull (.named "Int"), some (.int 5), false⟩, ⟨"b", .named "Int", some (.int 7), false⟩]] }
+
+set_option maxRecDepth 100000 in
+/-- C06-F8: the schema accepts `{}` (both fields have defaults); the class generated from the
+    introspected schema requires `a` -/
+theorem accepts_false_on_introspection : ¬ (∀ x : Setting, Valid x → AcceptsSrc (.intro false) x) := by
+  intro h
+  have hacc := h f8 (by unfold Valid; decide +kernel)
+  have hfind : (f8.Ssrc (.intro false)).find? "In" = some (.input "In"
+      [⟨"a", .nonNull (.named "Int"), some (.ok (.num 5 0))⟩, ⟨"b", .named "Int", some (.ok (.num 7 0))⟩]) := by rfl
+  have hco : coerce (f8.Ssrc (.intro false)) (.named "In") (.obj []) = .ok (.obj [("a", .num 5 0), ("b", .num 7 0)]) := by rfl
+  obtain ⟨⟨r, hr⟩, _⟩ := hacc "In" _ hfind (.obj []) _ (by intro h; cases h) hco (by decide +kernel)
+  have : isOk (construct (f8.envSrc (.intro false)) "In" (.obj [])) = false := by decide +kernel
+  rw [hr] at this
+  cases this
+
+def readsBackSrc (x : Setting) (m : Mode) (cls py : String) (v : J) : Option PV :=
+  match construct (x.envSrc m) cls v with
+  | .ok r => attr r py
+  | .error _ => none
+
+def isNonePV : Option PV → Bool
+  | some .none => true
+  | _ => false
+
+set_option maxRecDepth 100000 in
+/-- C06-F8, the other half: with `a` given, `b` reads back `None` on the introspection path, the
+    coerced schema default is `7`; from SDL it reads back `7` -/
+theorem intro_default_reads_none :
+    coercesTo (coerceLit (f8.Ssrc (.intro false)) (.named "Int") (.int 7)) (.num 7 0) = true
+    ∧ isNonePV (readsBackSrc f8 (.intro false) "In" "b" (.obj [("a", .num 1 0)])) = true
+    ∧ pvMatches (f8.envSrc (.intro false)) .none (.num 7 0) = false
+    ∧ (match readsBackSrc f8 .sdl "In" "b" (.obj [("a", .num 1 0)]) with
+       | some pv => pvMatches (f8.envSrc .sdl) pv (.num 7 0)
+       | none => false) = true := by decide +kernel
+
+/-- `Supported_06` for a schema of source `m`: the triggers of the emitted text evaluated on what the
+    generator sees, plus C06-F8's -/
+def Supported_06_src (m : Mode) (x : Setting) : Prop := supportedSrc m x.cfg x.defs = true
+
+/-- `Proved_06` for a schema of source `m` -/
+def Proved_06_src (m : Mode) (x : Setting) : Prop := related x.kinds (x.Ssrc m) (x.envSrc m) = true
+
+/-- `C06_partial` for the module generated from a schema of either source -/
+theorem C06_partial_any_source (m : Mode) (x : Setting) (hv : Valid x) (hs : Supported_06_src m x) (hp : Proved_06_src m x) :
+    AcceptsSrc m x
+    ∧ (∀ n fs, (x.Ssrc m).find? n = some (.input n fs) → ∀ cf ∈ fs, cf.type.isNonNull = true → cf.default = none →
+        ∃ sp : FieldSpec, sp.key = cf.name ∧ ∀ kvs, cf.name ∉ keys kvs → sp.py ∉ keys kvs →
+          ∃ e, construct (x.envSrc m) n (.obj kvs) = .error e)
+    ∧ (∀ n fs, (x.Ssrc m).find? n = some (.input n fs) → strDistinct (fs.map (·.name)) = true → ∀ cf ∈ fs, ∀ d,
+        cf.default = some (.ok d) →
+        ∃ sp : FieldSpec, sp.key = cf.name ∧ ∀ kvs r, cf.name ∉ keys kvs → sp.py ∉ keys kvs → construct (x.envSrc m) n (.obj kvs) = .ok r →
+          ∀ c, coerce (x.Ssrc m) (.named n) (dump (x.envSrc m) r) = .ok c → ∃ out, c = .obj out ∧ J.lookup cf.name out = some d) :=
+  ⟨fun n fs hin v c hnn hc hcan => C06Accept.construct_accepts hp n fs hin v c hnn hc hcan,
+   fun n fs hin cf hcf hnn hnd => lacking_required_refused_rel hp n fs hin cf hcf hnn hnd,
+   fun n fs hin hdist cf hcf d hdef => server_sees_default_rel hp n fs hin hdist cf hcf d hdef⟩
+
+/-- `WF_06` evaluated on what the generator sees of a schema of source `m` -/
+def WF_06_src (m : Mode) (x : Setting) : Prop := wf06 x.cfg (viewOf m x.defs) = true
+
+/-- the generator establishes `Proved_06_src` for either source, on `WF_06_src` (for introspection:
+    between the schema with the defaults `build_client_schema` restores and the module generated
+    without them) -/
+theorem proved_06_src_of_wf (m : Mode) (x : Setting) (hv : Valid x) (hs : Supported_06_src m x) (hw : WF_06_src m x) :
+    Proved_06_src m x := by
+  cases m with
+  | sdl =>
+    unfold Proved_06_src
+    rw [Ssrc_sdl, envSrc_sdl]
+    unfold WF_06_src at hw
+    rw [C06Source.viewOf_sdl] at hw
+    unfold Supported_06_src at hs
+    rw [C06Related.supportedSrc_sdl] at hs
+    exact C06Related.related_of_wf x.cfg x.defs x.acc x.lax hv hw hs
+  | intro b =>
+    obtain ⟨hs', hne⟩ := C06Related.supported_view_of_src x.cfg x.defs b hs
+    exact C06Related.related_intro_of_wf x.cfg x.defs x.acc x.lax b (C06Related.validDefs_view x.defs b hv) hw hs' hne
+
+/-- `C06_partial_any_source` without the measured hypothesis, on `WF_06_src` -/
+theorem C06_partial_any_source_plain (m : Mode) (x : Setting) (hv : Valid x) (hs : Supported_06_src m x) (hw : WF_06_src m x) :
+    AcceptsSrc m x
+    ∧ (∀ n fs, (x.Ssrc m).find? n = some (.input n fs) → ∀ cf ∈ fs, cf.type.isNonNull = true → cf.default = none →
+        ∃ sp : FieldSpec, sp.key = cf.name ∧ ∀ kvs, cf.name ∉ keys kvs → sp.py ∉ keys kvs →
+          ∃ e, construct (x.envSrc m) n (.obj kvs) = .error e)
+    ∧ (∀ n fs, (x.Ssrc m).find? n = some (.input n fs) → strDistinct (fs.map (·.name)) = true → ∀ cf ∈ fs, ∀ d,
+        cf.default = some (.ok d) →
+        ∃ sp : FieldSpec, sp.key = cf.name ∧ ∀ kvs r, cf.name ∉ keys kvs → sp.py ∉ keys kvs → construct (x.envSrc m) n (.obj kvs) = .ok r →
+          ∀ c, coerce (x.Ssrc m) (.named n) (dump (x.envSrc m) r) = .ok c → ∃ out, c = .obj out ∧ J.lookup cf.name out = some d) :=
+  C06_partial_any_source m x hv hs (proved_06_src_of_wf m x hv hs hw)
+
+/-- non-vacuity for the introspection path: aliases, every wrapper shape that is right, `= null`
+    defaults (the only ones that survive), a recursive input -/
+def okIntro : Setting := { cfg := cfg0, defs :=
+  [.enum "E" ["A", "class"],
+   .scalar "JSON",
+   .input "In2" [⟨"e", .named "E", some .null, false⟩, ⟨"b", .nonNull (.named "Int"), none, false⟩],
+   .input "In" [⟨"camelCase", .list (.named "Int"), none, false⟩,
+                ⟨"class", .nonNull (.list (.nonNull (.named "ID"))), none, false⟩,
+                ⟨"o", .named "In2", none, false⟩,
+                ⟨"self", .list (.list (.named "In")), none, true⟩,
+                ⟨"j", .named "JSON", none, false⟩]] }
+
+set_option maxRecDepth 1000000 in
+example : Valid okIntro ∧ Supported_06_src (.intro false) okIntro ∧ Proved_06_src (.intro false) okIntro
+    ∧ WF_06_src (.intro false) okIntro := by
+  refine ⟨?_, ?_, ?_, ?_⟩
+  · unfold Valid; decide +kernel
+  · unfold Supported_06_src; decide +kernel
+  · unfold Proved_06_src; decide +kernel
+  · unfold WF_06_src; decide +kernel
+
+/-- non-vacuity of `required_iff_intro` / `intro_default_lost`: `a: Int! = 5` is generated, required -/
+example : (genFieldSrc (.intro false) cfg0 (kindOf cfg0 f8.defs) ⟨"a", .nonNull (.named "Int"), some (.int 5), false⟩).map (·.required) = some true := by
+  decide +kernel
+
+/-! ## imports and class selection (`Model/InputDeps.lean`)
+
+  A generated input class can be built only if `input_types.py` imports: every name the class bodies
+  mention must be bound.  For every schema, source, configuration and list of roots
+  (`generate(types_to_include)`; `none` = `include_all_inputs`). -/
+
+/-- the fuelled DFS of the model never runs dry -/
+theorem generate_total (m : Mode) (cfg : Cfg) (defs : List TypeDef) (roots : Option (List String)) :
+    ∃ mod, generate m cfg defs roots = some mod :=
+  C06Deps.generate_total m cfg defs roots
+
+/-- every enum an emitted class is typed with (`annLeaf` of the field's annotation is that name) is
+    in `from .enums import …` -/
+theorem used_enum_imported (m : Mode) (cfg : Cfg) (defs : List TypeDef) (roots : Option (List String)) (mod : Module)
+    (h : generate m cfg defs roots = some mod)
+    (n : String) (fs : List InputField) (hd : TypeDef.input n fs ∈ defs) (hn : n ∈ mod.classes.map (·.name))
+    (f : InputField) (hf : f ∈ InputGen.visibleFields m fs)
+    (hk : kindOf cfg defs f.type.base = .enum) (hne : f.type.base ≠ "") :
+    f.type.base ∈ mod.enumImport
+    ∧ ∀ a ft, annOf (kindOf cfg defs) f.type true = some (a, ft) → C06Deps.annLeaf a = .name f.type.base :=
+  ⟨C06Deps.used_enum_imported m cfg defs roots mod h n fs hd hn f hf hk hne,
+   fun a ft ha => (C06Deps.annOf_leaf _ f.type true a ft ha).1 hk⟩
+
+/-- every input class an emitted class refers to (as the forward reference `"T"`) is emitted -/
+theorem dependency_emitted (m : Mode) (cfg : Cfg) (defs : List TypeDef) (roots : Option (List String)) (mod : Module)
+    (h : generate m cfg defs roots = some mod)
+    (n : String) (fs : List InputField) (hd : TypeDef.input n fs ∈ defs) (hn : n ∈ mod.classes.map (·.name))
+    (f : InputField) (hf : f ∈ InputGen.visibleFields m fs)
+    (hk : kindOf cfg defs f.type.base = .input) (hne : f.type.base ≠ "") :
+    f.type.base ∈ mod.classes.map (·.name)
+    ∧ ∀ a ft, annOf (kindOf cfg defs) f.type true = some (a, ft) → C06Deps.annLeaf a = .fwd f.type.base :=
+  ⟨C06Deps.dependency_emitted m cfg defs roots mod h n fs hd hn f hf hk hne,
+   fun a ft ha => (C06Deps.annOf_leaf _ f.type true a ft ha).2 hk⟩
+
+/-- a default expression mentions only names `<field_type>.<v>` where `v` is an enum literal of the
+    schema default; for an enum-typed field (C06-F2's trigger off) `field_type` is the field's own enum
+    (imported: `used_enum_imported`) and, the default being valid, `v` is one of its values -/
+theorem default_names_bound (m : Mode) (cfg : Cfg) (defs : List TypeDef) (f : InputField) (d : FieldDecl) (e : PyExpr)
+    (h : genFieldSrc m cfg (kindOf cfg defs) f = some d) (he : d.value.default = some e)
+    (s : String) (hs : s ∈ exprNames e) :
+    ∃ a ft lit v, annOf (kindOf cfg defs) f.type true = some (a, ft) ∧ f.default = some lit ∧ v ∈ litEnums lit
+      ∧ s = ft ++ "." ++ v
+      ∧ (kindOf cfg defs f.type.base = .enum → ft = f.type.base ∧
+          ∀ (S : CSchema) vals dflt, S.find? ft = some (.enum ft vals) → coerceLit S f.type lit = .ok dflt → v ∈ vals) := by
+  obtain ⟨a, ft, ha, _, _, hdef, _⟩ := C06Source.genFieldSrc_default m cfg _ f d h
+  rw [hdef] at he
+  obtain ⟨_, lit, hlit, v, hv, rfl⟩ := C06Deps.fieldDefault_names m ft f e he s hs
+  refine ⟨a, ft, lit, v, ha, hlit, hv, rfl, ?_⟩
+  intro hk
+  have hft := C06Deps.annOf_ft _ f.type true a ft ha
+  simp only [C06Deps.ftOf, hk, Option.some.injEq] at hft
+  refine ⟨hft.symm, ?_⟩
+  intro S vals dflt hfind hco
+  exact C06Deps.coerceLit_enums S ft vals hfind lit f.type dflt hft hco v hv
+
+/-- non-vacuity: two inputs share the enum `E`, only `B` is a root; `B`'s module imports `E`, does not
+    contain `A`, contains `C` (referred to by `B`) -/
+def depDefs : List TypeDef :=
+  [.enum "E" ["X", "Y"],
+   .input "A" [⟨"e", .named "E", none, false⟩],
+   .input "C" [⟨"n", .named "Int", none, false⟩],
+   .input "B" [⟨"e", .nonNull (.named "E"), some (.enum "X"), false⟩, ⟨"c", .list (.named "C"), none, false⟩]]
+
+set_option maxRecDepth 100000 in
+example : (generate .sdl cfg0 depDefs (some ["B"])).map (fun mod => (mod.classes.map (·.name), mod.enumImport)) = some (["C", "B"], ["E"])
+    ∧ (generate (.intro false) cfg0 depDefs none).map (fun mod => (mod.classes.map (·.name), mod.enumImport)) = some (["A", "C", "B"], ["E", "E"])
+    ∧ kindOf cfg0 depDefs "E" = .enum ∧ kindOf cfg0 depDefs "C" = .input := by decide +kernel
+
+set_option maxRecDepth 100000 in
+example : (genFieldSrc .sdl cfg0 (kindOf cfg0 depDefs) ⟨"e", .nonNull (.named "E"), some (.enum "X"), false⟩).map
+    (fun d => d.value.default.map exprNames) = some (some ["E.X"]) := by decide +kernel
 
 end Ariadne.C06
